@@ -467,7 +467,7 @@ impl_family!(BUintD32, BIntD32, u32, "D32");
 impl_family!(BUint, BInt, u64, "D64");
 
 // ---------------------------------------------------------------------------------------------
-// configuration table (DESIGN.md §3.2 + §8.2): 37 (digit, N) configurations, unsigned + signed each
+// configuration table (DESIGN.md §3.2 + §8.2): 43 (digit, N) configurations, unsigned + signed each
 // (the 36 planned ones plus BUintD8<260>: more than 255 digits, i.e. digit indices that do not fit a u8)
 // ---------------------------------------------------------------------------------------------
 
@@ -477,12 +477,17 @@ impl_family!(BUint, BInt, u64, "D64");
 macro_rules! for_all_cfgs {
     ($m:ident $(, $x:tt)*) => {
         $m!(bnum::BUint<128>, bnum::BInt<128> $(, $x)*);
+        $m!(bnum::BUintD32<260>, bnum::BIntD32<260> $(, $x)*);
+        $m!(bnum::BUintD16<260>, bnum::BIntD16<260> $(, $x)*);
         $m!(bnum::BUintD8<260>, bnum::BIntD8<260> $(, $x)*);
+        $m!(bnum::BUintD8<256>, bnum::BIntD8<256> $(, $x)*);
         $m!(bnum::BUint<17>, bnum::BInt<17> $(, $x)*);
         $m!(bnum::BUint<16>, bnum::BInt<16> $(, $x)*);
         $m!(bnum::BUint<8>, bnum::BInt<8> $(, $x)*);
         $m!(bnum::BUintD32<16>, bnum::BIntD32<16> $(, $x)*);
+        $m!(bnum::BUint<7>, bnum::BInt<7> $(, $x)*);
         $m!(bnum::BUint<5>, bnum::BInt<5> $(, $x)*);
+        $m!(bnum::BUintD32<7>, bnum::BIntD32<7> $(, $x)*);
         $m!(bnum::BUintD32<10>, bnum::BIntD32<10> $(, $x)*);
         $m!(bnum::BUintD16<20>, bnum::BIntD16<20> $(, $x)*);
         $m!(bnum::BUintD8<40>, bnum::BIntD8<40> $(, $x)*);
